@@ -2,7 +2,9 @@ import Driver.Common
 import GqlModel.Ext
 /-! Driver for C17.
 in : {"exts":[{"name":n,"beh":[11 × 0|1|2|3],"hasRes":b}…], "req":{"class":"syntax|validation|operation|variable|exec","fields":[0..4…]},
-      "log":[[ext,hook,fld,out,fault]…], "errors":[[1,name,hook,kind]|[0,0,0,0]…]}            (log/errors = the REAL run)
+      "log":[[ext,hook,fld,out,fault]…], "errors":[[1,name,hook,kind]|[0,0,0,0]…],            (log/errors = the REAL run)
+      optional: "entry":"do"|"plan" (graphql.Do, or ExecutePlan called directly), "ctx": -1 | j (context done before the
+      call | while the resolver of executed field j runs; class exec only), "late":[…] (what is logged after Do returned)}
 out: {"M":{"log":…,"errors":…,"keys":[…],"hasData":b}, "specM":{…}, "specG":{…}, "sharedName":b}
 Encodings: beh 0 ok, 1 panic(error), 2 panic(string), 3 panic(other); hook = constructor index (resolver = 11);
 out 0 none, 1 ok, 2 err; field outcome 0 ok, 1 err, 2 panic, 3 errNN, 4 panicNN. -/
@@ -83,19 +85,66 @@ def specJson (req : RequestOutcomeClass) (ns : List Nat) (t : Trace) (r : Result
     ("reported", reported t r),
     ("isolated", decide (PanicsReported req ns t r))]
 
+/-- context done: top-level phases in the log at return, resolve phases in the complete log -/
+def specCtxJson (fields : List FieldOutcome) (ns : List Nat) (now late : Trace) (r : ResultSummary) : Json :=
+  let tl := topLevel now
+  Json.mkObj [
+    ("order", decide (PhaseOrder ns tl)),
+    ("balanced", decide (Balanced ctxReq ns tl) && ns.all (fun a => resolvePhasesFor (.exec fields) a (now ++ late))),
+    ("nested", decide (Nested ns tl)),
+    ("reported", reported tl r),
+    ("isolated", decide (PanicsReported ctxReq ns tl r))]
+
+/-- the hooks `Do` calls before `ExecutePlan`, all succeeding: prefix used to evaluate the predicates on a log of
+`ExecutePlan` called directly -/
+def okTop (b : ExtBehaviour) : ExtBehaviour :=
+  { b with beh := fun h => match h with
+      | .init | .parseStart | .parseEnd | .valStart | .valEnd => .ok
+      | h => b.beh h }
+
+def doPrefix (xs : List ExtBehaviour) (req : RequestOutcomeClass) : Trace :=
+  let ys := xs.map okTop
+  let full := (GqlModel.Ext.run ys req).1
+  full.take (full.length - (executePlan ys req).1.length)
+
+def encTrace (t : Trace) : Json := Json.arr (t.map encEv).toArray
+
 def handle (j : Json) : Except String Json := do
   let xs ← (← Driver.getArr j "exts").toList.mapM decExt
   let req ← decReq (← j.getObjVal? "req")
   let glog ← (← Driver.getArr j "log").toList.mapM decEv
+  let glate ← match Driver.getOpt j "late" with
+    | some l => (← l.getArr?).toList.mapM decEv
+    | none => pure []
   let gerrs ← (← Driver.getArr j "errors").toList.mapM decErr
-  let (mt, mr) := GqlModel.Ext.run xs req
+  let entryPlan := match Driver.getOpt j "entry" with
+    | some (Json.str "plan") => true
+    | _ => false
+  let ctx : Option CtxAt := match Driver.getOpt j "ctx" with
+    | some v => match v.getInt? with
+      | .ok (-1) => some .before
+      | .ok n => if n ≥ 0 then some (.inResolver n.toNat) else none
+      | .error _ => none
+    | none => none
   let ns := names xs
   let gr : ResultSummary := ⟨gerrs, [], false⟩
+  -- model
+  let (mt, mr, mlate) : Trace × ResultSummary × Trace := match ctx, req with
+    | some c, .exec fs =>
+      if entryPlan then ((executePlanCtx xs fs c).1, (executePlanCtx xs fs c).2, ctxLatePlan xs fs c)
+      else ((runCtx xs fs c).1, (runCtx xs fs c).2, ctxLate xs fs c)
+    | _, _ =>
+      if entryPlan then ((executePlan xs req).1, (executePlan xs req).2, [])
+      else ((GqlModel.Ext.run xs req).1, (GqlModel.Ext.run xs req).2, [])
+  let pfx := if entryPlan then doPrefix xs req else []
+  let (specM, specG) := match ctx, req with
+    | some _, .exec fs => (specCtxJson fs ns (pfx ++ mt) mlate mr, specCtxJson fs ns (pfx ++ glog) glate gr)
+    | _, _ => (specJson req ns (pfx ++ mt) mr, specJson req ns (pfx ++ glog) gr)
   return Json.mkObj [
-    ("M", Json.mkObj [("log", Json.arr (mt.map encEv).toArray), ("errors", Json.arr (mr.errors.map encErr).toArray),
+    ("M", Json.mkObj [("log", encTrace mt), ("late", encTrace mlate), ("errors", Json.arr (mr.errors.map encErr).toArray),
                       ("keys", Json.arr (mr.extKeys.map (fun (n : Nat) => Json.num n)).toArray), ("hasData", mr.hasData)]),
-    ("specM", specJson req ns mt mr),
-    ("specG", specJson req ns glog gr),
+    ("specM", specM),
+    ("specG", specG),
     ("sharedName", sharedName ns)]
 
 end Driver.C17
